@@ -13,7 +13,6 @@ import (
 	"fmt"
 	"net"
 	"os"
-	"runtime"
 	"sort"
 	"sync"
 	"testing"
@@ -25,8 +24,6 @@ import (
 	"github.com/anacrolix/dht/v2/bep44"
 	"github.com/anacrolix/dht/v2/exts/getput"
 	"github.com/anacrolix/dht/v2/krpc"
-
-	"github.com/anacrolix/dht/v2/traversal"
 
 	"verifharness/kit"
 	"verifharness/refmodel"
@@ -393,25 +390,7 @@ func runC14Trav(sc C14Sc, c *kit.Case) *kit.Violation {
 	}
 	if sc.LoopLast {
 		c.Label("run-loop-always-last")
-		c03bMu.Lock() // the hook is a package variable of the library
-		defer c03bMu.Unlock()
-		traversal.VerifBeforeSelect = func(*traversal.Operation, bool) {
-			// never a verdict by itself: if the node does not settle within 30 ms the loop simply goes on
-			deadline := time.Now().Add(30 * time.Millisecond)
-			next := time.Now()
-			for now := time.Now(); now.Before(deadline); now = time.Now() {
-				if !now.Before(next) {
-					if sv.C.Idle() {
-						if ok, _ := sv.C.AllBlocked(); ok {
-							return
-						}
-					}
-					next = now.Add(200 * time.Microsecond)
-				}
-				runtime.Gosched() // (not Sleep: a sleeping goroutine would look blocked to the quiescence barrier)
-			}
-		}
-		defer func() { traversal.VerifBeforeSelect = nil }()
+		defer runLoopLast(sv)()
 	}
 	base := sv.C.Census()
 	net1 := newSimNet(sv)
